@@ -233,10 +233,6 @@ def _unpack(p):
 # ---------------------------------------------------------------------------------------------
 # C01
 
-C01_RULES = ['/x/<id:int>', '/y/<id:int>/t', '/y/:w/u', '/z/<id:int>', '/z/:w', '/f/<v:float>', '/p/:w', '/s<id:int>.png',
-             '/dl/<p:path>/<n:int>']
-
-
 def c01_runs(rng):
     """[(digit-run text, tag)] : runs of the four sizes, optionally signed / led by zeros"""
     out = []
@@ -262,10 +258,10 @@ def c01_cases(rng):
         v = _int_of(text)
         # int wildcard, end of path / followed by a literal
         out.append((['/x/<id:int>'], '/x/' + text, ('hit', 0, {'id': v}) if v is not None else ('miss',), 'int/' + tag))
-        out.append((['/y/<id:int>/t', '/y/:w/u'], '/y/' + text + '/t', ('hit', 0, {'id': v}) if v is not None else ('miss',), 'int-lit/' + tag))
+        out.append((['/y/<id:int>/t'], '/y/' + text + '/t', ('hit', 0, {'id': v}) if v is not None else ('miss',), 'int-lit/' + tag))
         out.append((['/s<id:int>.png'], '/s' + text + '.png', ('hit', 0, {'id': v}) if v is not None else ('miss',), 'int-infix/' + tag))
         # the next candidate rule takes over when the int wildcard does not match
-        out.append((['/z/<id:int>', '/z/:w'], '/z/' + text, ('hit', 0, {'id': v}) if v is not None else ('hit', 1, {'w': text}), 'int-then-plain/' + tag))
+        out.append((['/z/<id:int>', '/<q:path>'], '/z/' + text, ('hit', 0, {'id': v}) if v is not None else ('hit', 1, {'q': 'z/' + text}), 'int-then-path/' + tag))
         # plain wildcard, float wildcard, literal text: no limit applies
         out.append((['/p/:w'], '/p/' + text, ('hit', 0, {'w': text}), 'plain/' + tag))
         out.append((['/f/<v:float>'], '/f/' + text, ('hit', 0, {'v': float(text)}), 'float/' + tag))
@@ -297,13 +293,13 @@ def c01_judge(rules, path, exp):
     from ombott.ombott import Ombott
     app = Ombott()
     calls = []
-    for i, r in enumerate(rules):
-        def handler(_i=i, **kw):
-            calls.append((_i, kw))
-            return 'h%d' % _i
-        app.route(r, 'GET')(handler)
     ctx = f'rules={[_abbr_rule(r) for r in rules]} path={_abbr_rule(path)}'
     try:
+        for i, r in enumerate(rules):
+            def handler(_i=i, **kw):
+                calls.append((_i, kw))
+                return 'h%d' % _i
+            app.route(r, 'GET')(handler)
         st = core.with_timeout(lambda: _call(app, path, calls), 20)
     except core.Hang:
         return 'C01:intlim:hang', 'the request did not finish: ' + ctx
@@ -407,7 +403,7 @@ def install_c01(cls):
     cls.tables = list(cls.tables) + ['pyint']
     cls.rule = cls.rule + (' || int() limit (intlimlib): digit runs of LIMIT-1 / LIMIT / LIMIT+1 / 2*LIMIT characters '
                            '(LIMIT = sys.get_int_max_str_digits()), canonical / led by zeros / signed, in request paths under int, '
-                           'float and plain wildcards (end of path, before a literal, after a path wildcard, with a plain rule as '
+                           'float and plain wildcards (end of path, before a literal, after a path wildcard, with a path wildcard one level up as '
                            'next candidate) and as literal rule text: live handlers against the reference and the concrete '
                            'filter model, whole lookups against `router histb`, and through the real application against '
                            '"the handler gets int(text) or the rule does not match - never a 5xx"')
